@@ -20,7 +20,10 @@ specifications — are run here against the library, with the constants of the B
   mzd_top_echelonize_m4ri                    M4RI.top_run                                           matrix
   mzd_trsm_* / _mzd_trsm_* (8)               TRSMRec.trsm_*_rec_f cfg (word base, Russian middle,   B after the call
                                                recursion above MUL_BLOCKSIZE)
-  mzd_trtri_upper                            TRSMRec.trtri_upper_rec_f cfg (2*L3, SSE2 split)       U after the call, fate
+  mzd_trtri_upper                            TrtriRussian.trtri_upper_rec_fr cfg (2*L3, SSE2 split)  U after the call, fate
+                                               over the faithful base routine
+  mzd_trtri_upper_russian (explicit k 1..16, TrtriRussian.trtri_upper_russian k (4 tables per block,    U after the call
+    automatic k)                               L index array, stale tables)
   mzd_inv_m4ri                               the code's own route: M4RI model on [A|0|I|0]          inverse
   _mzd_ple_russian / _mzd_pluq_russian       PLERussian.ple_russian k (lazy pivot search on the      A', P, Q, rank
                                                column window, 1..7 tables with M/E/B; k as in C)
@@ -48,7 +51,7 @@ TB_OPS = {"mul_naive", "addmul_naive", "mul_m4rm", "addmul_m4rm", "mul", "addmul
           "echelonize_m4ri", "_echelonize_m4ri", "echelonize", "echelonize_pluq", "top_echelonize_m4ri",
           "trsm_upper_left", "trsm_lower_left", "trsm_upper_right", "trsm_lower_right",
           "_trsm_upper_left", "_trsm_lower_left", "_trsm_upper_right", "_trsm_lower_right", "trtri_upper", "inv_m4ri",
-          "_ple_russian", "_pluq_russian"}
+          "_ple_russian", "_pluq_russian", "trtri_upper_russian"}
 
 _consts_cache = {}
 
@@ -407,8 +410,10 @@ def c05(res, tier, seed):
             # mzd_trtri_upper recurses for n*n >= 2*L3 = 131072, i.e. n >= 363
             tb.run("trtri-rec", catalogue_cases(g, ["trtri_upper"], 16 * k, 400, tb.cline, tri_big=(363, 420, 0.9)), ["trtri_upper"], 420)
             tb.run("inv", catalogue_cases(g, ["inv_m4ri", "trtri_upper"], 12 * k, 140, tb.cline), ["inv_m4ri", "trtri_upper"], 300)
+            tb.run("trtri-russian", catalogue_cases(g, ["trtri_upper_russian"], 40 * k, 200, tb.cline), ["trtri_upper_russian", "trtri_upper"], 300)
         else:
             tb.run("inv", catalogue_cases(g, ["inv_m4ri", "trtri_upper"], 5 * k, 200, tb.cline), ["inv_m4ri", "trtri_upper"], 300)
+            tb.run("trtri-russian", catalogue_cases(g, ["trtri_upper_russian"], 25 * k, 260, tb.cline), ["trtri_upper_russian", "trtri_upper"], 300)
 
 
 def c03(res, tier, seed):
